@@ -118,6 +118,102 @@ def _lanczos():
 CONTRACTS.append(ZContract('krylov.lanczos_iteration', _lanczos, ('C14', 'C15', 'C08', 'C10'),
                            confirm=['lanczos_iteration', 'eigh_krylov', 'expm_krylov', 'integrate_local', 'calculate_ground_state']))
 
+# ---- Lanczos: the returned off-diagonals are positive (C14), on the full path and on the early (breakdown) exit ------------
+# 1-D real arrays carry an element function (RV1 of vt/zqr.py), real scalars that matter carry a z3 value (RScal): the norm of
+# w is >= 0, the breakdown threshold 100 * n * eps is > 0, and the sidecar invariant says that every off-diagonal stored so far
+# passed the test `not (beta[j] < threshold)`.
+
+class RScal(ZScal):
+    def __init__(self, val):
+        ZScal.__init__(self, 'real'); self.val = val
+
+_EPS = z3.Real('machine_eps')
+
+def _rs_eps(ex, st, node, base):
+    from .libz import FInfo
+    return RScal(_EPS) if isinstance(base, FInfo) else NotImplemented
+
+def _rs_norm(ex, st, node, args, kw):
+    v = z3.Real(f'norm!{id(node)}_{len(st.pc)}')
+    st.pc.append(v >= 0)
+    return RScal(v)
+
+def _rs_binop(ex, st, node, op, l, r):
+    from .libz import z_binop
+    def val(x):
+        if isinstance(x, RScal):
+            return x.val
+        if isinstance(x, int) and not isinstance(x, bool) or (is_z(x) and x.sort() == z3.IntSort()):
+            return z3.ToReal(zint(x))
+        return None
+    if isinstance(op, ast.Mult) and (isinstance(l, RScal) or isinstance(r, RScal)) and val(l) is not None and val(r) is not None:
+        return RScal(val(l) * val(r))
+    return z_binop(ex, st, node, op, l, r)
+
+def _rs_compare(ex, st, node, op, l, r):
+    from .libz import z_compare
+    if isinstance(l, RScal) and isinstance(r, RScal):
+        return {ast.Lt: l.val < r.val, ast.LtE: l.val <= r.val, ast.Gt: l.val > r.val, ast.GtE: l.val >= r.val}.get(type(op), z3.Bool(f'cmp!{id(node)}'))
+    return z_compare(ex, st, node, op, l, r)
+
+def _rs_zeros(ex, st, node, args, kw):
+    from .libz import np_zeros
+    from .zqr import RV1
+    z = np_zeros(ex, st, node, args, kw)
+    if getattr(z, 'is_zarr', False) and z.ndim == 1 and z.kind == 'real':
+        return RV1(z.shape[0], lambda c: z3.RealVal(0), origin=('zeros',))
+    return z
+
+def _rs_getitem(ex, st, node, base, key):
+    from .libz import z_getitem, norm_index
+    from .zqr import q_getitem
+    if getattr(base, 'is_rv1', False):
+        if isinstance(key, slice):
+            return q_getitem(ex, st, node, base, key)
+        if isinstance(key, int) or is_z(key):
+            k = norm_index(ex, st, node, key, base.shape[0], ast.unparse(node)[:40])
+            return RScal(base.a(k))
+    return z_getitem(ex, st, node, base, key)
+
+def _rs_setitem(ex, st, node, base, key, v):
+    from .libz import z_setitem, norm_index
+    from .zqr import RV1
+    if getattr(base, 'is_rv1', False) and (isinstance(key, int) or is_z(key)):
+        k = norm_index(ex, st, node, key, base.shape[0], ast.unparse(node)[:40])
+        val = v.val if isinstance(v, RScal) else z3.Real(f'stored!{id(node)}_{len(st.pc)}')
+        return RV1(base.shape[0], lambda c, b=base, k=k, val=val: z3.If(c == k, val, b.a(c)), origin=('store1', base))
+    return z_setitem(ex, st, node, base, key, v)
+
+def _lanczos_beta():
+    n = z3.Int('n'); m = z3.Int('numiter'); k = z3.Int('k')
+    thr = 100 * z3.ToReal(n) * _EPS
+    def inv(env, ex, st):
+        beta = env.get('beta'); j = env['#iter']
+        if not getattr(beta, 'is_rv1', False):
+            return z3.BoolVal(False)
+        return z3.ForAll([k], z3.Implies(z3.And(0 <= k, k < j), beta.a(k) >= thr))
+    def post(ret, env, ex, st):
+        alpha, beta, V = ret
+        if not getattr(beta, 'is_rv1', False):
+            return [('off_diagonals_positive', False)]
+        return [('off_diagonals_positive', z3.ForAll([k], z3.Implies(z3.And(0 <= k, k < zint(beta.shape[0])), beta.a(k) > 0)))]
+    return dict(args={'Afunc': _afunc, 'vstart': ZArr((n,), 'param:vstart'), 'numiter': m}, requires=[n >= 1, m >= 1, _EPS > 0], post=post,
+                assume_asserts=['nrmv > 0'], inv={'for j in range(numiter - 1)': inv})
+
+class ZContractInv(ZContract):
+    """ZContract whose sidecar loop invariants come from the spec (they mention the spec's symbols)"""
+    def verify(self):
+        self.invariants = self.make().get('inv', {})
+        out = ZContract.verify(self)
+        # only the value-level clauses are reported by this contract (sizes and indices are reported by the plain contract)
+        return [v for v in out if v.kind in ('invariant', 'ensures', 'vacuity') or v.status != 'discharged']
+
+CONTRACTS.append(ZContractInv('krylov.lanczos_iteration', _lanczos_beta, ('C14',),
+                              lib={'getattr.eps': _rs_eps, 'np.linalg.norm': _rs_norm, 'binop': _rs_binop, 'compare': _rs_compare, 'np.zeros': _rs_zeros,
+                                   'getitem': _rs_getitem, 'setitem': _rs_setitem},
+                              confirm=['lanczos_iteration'], note='positivity of the returned off-diagonals'))
+
+
 def _arnoldi():
     n = z3.Int('n'); m = z3.Int('numiter')
     def post(ret, env, ex, st):
